@@ -24,6 +24,7 @@ const (
 	KCall
 	KRet
 	KUser
+	KStuck
 )
 
 // Acc names one object an operation touches and whether it may change it.
